@@ -210,7 +210,7 @@ class PseudoOperand(Operand):
         else:
             self.value = Value.create_from_str(operand_string, instruction)
 
-        if instruction.is_pseudo_define:
+        if instruction.is_pseudo_define and self.value.is_numeric():
             if self.operand_string.startswith("$") and len(self.operand_string) > 3:
                 self.value = ExtendedNumericValue(self.value.int)
             elif self.value.hex_len() == 2:
